@@ -164,7 +164,9 @@ def deep_equal(seq1: Iterable[Any],
                             if not math.isnan(as_double(value2)):
                                 return False
                         elif math.isinf(value1):
-                            if value1 != value2:
+                            # compared after the promotion to xs:double, as `eq` does
+                            if value1 != (float(value2) if isinstance(value2, Decimal)
+                                          else as_double(value2)):
                                 return False
                         elif isinstance(value2, Decimal):
                             if value1 != float(value2):
@@ -178,7 +180,8 @@ def deep_equal(seq1: Iterable[Any],
                         if math.isnan(value2):
                             return False
                         elif math.isinf(value2):
-                            if value1 != value2:
+                            if (float(value1) if isinstance(value1, Decimal)
+                                    else as_double(value1)) != value2:
                                 return False
                         elif isinstance(value1, Decimal):
                             if value2 != float(value1):
